@@ -13,6 +13,8 @@ def run(rep, drv):
 				'without each disruption type; non-trivial = some positive backorder; histogram of (slt, olt, disruption) cells in '
 				'input_distribution' % (8 if th else 5))
 	simstream.run_stream(rep, drv, 'sim-trace', 2500 if th else 250, FIELDS, oracle, THEOREM, th, seed_off=3)
+	# customers with node index 0 and frequent disruptions (index 0 is legal and falsy; disruption bookkeeping is per customer index)
+	simstream.run_stream(rep, drv, 'sim-trace', 600 if th else 80, FIELDS, oracle, THEOREM, th, force={'label0': True, 'pdis': .8}, seed_off=103)
 	# tracer: one marked order in an otherwise quiet history must be received exactly olt + slt periods later
 	simstream.run_stream(rep, drv, 'sim-trace-nodisruption', 600 if th else 60, FIELDS, oracle, THEOREM, th, force={'pdis': 0.0}, seed_off=33)
 	mplib.run_mp_stream(rep, drv, 'C03', THEOREM + ' + Props/MP (rm_conservation, rm_never_negative)', 400 if th else 50, th, seed_off=13)
